@@ -887,6 +887,10 @@ class BaseProperty(base.BaseObject):
             return
 
         new_value = self._convert_value_input(obj)
+        # Any other empty container or iterator is an empty value as well.
+        if not new_value:
+            return
+
         if len(new_value) > 1:
             raise ValueError("odml.property.append: Use extend to add a list of values!")
 
@@ -930,11 +934,12 @@ class BaseProperty(base.BaseObject):
             self.values = obj
             return
 
+        # Convert once: an iterator can be walked through only one time.
         new_value = self._convert_value_input(obj)
-        if len(new_value) > 1:
-            raise ValueError("odml.property.insert: Use extend to add a list of values!")
+        # Any other empty container or iterator is an empty value as well.
+        if not new_value:
+            return
 
-        new_value = self._convert_value_input(obj)
         if len(new_value) > 1:
             raise ValueError("odml.property.insert: Use extend to add a list of values!")
 
